@@ -1060,6 +1060,22 @@ pub fn replay(v: &Value) -> i32 {
         Some("stream") => replay_stream(v),
         Some("topic") => replay_topic(v),
         Some("websocket") => replay_ws(v),
+        Some("missing-column") => {
+            let clause = v["clause"].as_str().unwrap_or("").to_string();
+            let bi = v["batch"].as_u64().unwrap_or(0) as usize;
+            let b = missing_column_batches();
+            let (f, r) = &b[bi.min(b.len() - 1)];
+            match missing_column_one(&clause, f, r) {
+                Ok(_) => {
+                    println!("`{clause}`: delivered rows equal the reference; no violation");
+                    0
+                }
+                Err((sig, msg)) => {
+                    println!("violation [{sig}]: {msg}");
+                    1
+                }
+            }
+        }
         _ => {
             println!("MACHINERY: unknown replay kind");
             2
@@ -2319,5 +2335,129 @@ pub fn run(tier: &str) -> i32 {
     rep.assume("stream sub-space: the wall clock is frozen, so the merge point is exactly the instant of subscription; the ingester is configured to flush on every write and without a WAL; the shard id the ingester attaches to a flushed batch is taken as given (Shard filters are checked at channel level only)");
     rep.assume("websocket sub-space: the handler defines no merge point, so rows older than the subscription instant may be delivered or not; quiescence is decided by the channel's own queue length (feature-gated accessor), never by a timer");
     rep.assume("topic sub-space: a Metrics filter is satisfied when the batch carries at least one listed metric; the empty And is satisfied, the empty Or is not");
+    missing_column_space(&mut rep);
     rep.finish()
+}
+
+// ------------------------------------------------------------------------------------------------
+// E. clauses that name a label the flushed batch does not carry
+// ------------------------------------------------------------------------------------------------
+// Clients with different label sets share one ingester; a batch from a client that sends `host` only has no
+// `region` column, so for its rows `region` is NULL and a comparison on it selects nothing. The reference
+// evaluates the clause over a MemTable of the batch's rows with the missing column added as all-NULL.
+
+fn missing_column_clauses() -> Vec<String> {
+    let mut atoms: Vec<String> = Vec::new();
+    for op in ["=", "!=", "<", "<=", ">", ">="] {
+        atoms.push(format!("region {op} 'eu'"));
+        atoms.push(format!("'eu' {op} region"));
+    }
+    let present = ["host = 'a'", "host != 'a'", "value_f64 > 1.5", "metric_name = 'cpu'"];
+    let mut v = atoms.clone();
+    for a in &atoms[..4] {
+        for p in present {
+            v.push(format!("{a} AND {p}"));
+            v.push(format!("{p} AND {a}"));
+            v.push(format!("{a} OR {p}"));
+            v.push(format!("{p} OR {a}"));
+            v.push(format!("({a} OR {p}) AND host = 'b'"));
+            v.push(format!("{p} OR ({a} AND host = 'b')"));
+        }
+    }
+    v.push("region = 'eu' OR region = 'us'".into());
+    v.push("region = 'eu' AND zone = 'z1'".into());
+    v.push("region = 'eu' OR zone = 'z1' OR host = 'b'".into());
+    v
+}
+
+fn missing_column_batches() -> Vec<(RecordBatch, RecordBatch)> {
+    // (what the ingester flushes, the same rows with `region` and `zone` as all-NULL columns + a row number)
+    let mut out = Vec::new();
+    for ts_type in [true, false] {
+        for n in [1usize, 4] {
+            let ts: Vec<i64> = (0..n as i64).map(|i| 1_000 + i).collect();
+            let ts_f = if ts_type { Field::new("timestamp", DataType::Timestamp(TimeUnit::Nanosecond, Some("UTC".into())), false) } else { Field::new("timestamp", DataType::Int64, false) };
+            let ts_a: Arc<dyn Array> = if ts_type { Arc::new(arrow_array::TimestampNanosecondArray::from(ts).with_timezone("UTC")) } else { Arc::new(Int64Array::from(ts)) };
+            let metric: Arc<dyn Array> = Arc::new(StringArray::from((0..n).map(|i| if i % 2 == 0 { "cpu" } else { "mem" }).collect::<Vec<_>>()));
+            let host: Arc<dyn Array> = Arc::new(StringArray::from((0..n).map(|i| match i % 4 { 0 => Some("a"), 1 => Some("b"), 2 => None, _ => Some("a") }).collect::<Vec<_>>()));
+            let val: Arc<dyn Array> = Arc::new(Float64Array::from((0..n).map(|i| i as f64).collect::<Vec<_>>()));
+            let fields = vec![ts_f, Field::new("metric_name", DataType::Utf8, false), Field::new("host", DataType::Utf8, true), Field::new("value_f64", DataType::Float64, true)];
+            let cols = vec![ts_a, metric, host, val];
+            let flushed = RecordBatch::try_new(Arc::new(Schema::new(fields.clone())), cols.clone()).expect("flushed batch");
+            let mut rf = fields;
+            let mut rc = cols;
+            for l in ["region", "zone"] {
+                rf.push(Field::new(l, DataType::Utf8, true));
+                rc.push(Arc::new(StringArray::from(vec![None::<&str>; n])));
+            }
+            rf.push(Field::new("__row", DataType::Int64, false));
+            rc.push(Arc::new(Int64Array::from((0..n as i64).collect::<Vec<_>>())));
+            out.push((flushed, RecordBatch::try_new(Arc::new(Schema::new(rf)), rc).expect("reference batch")));
+        }
+    }
+    out
+}
+
+fn missing_column_one(clause: &str, flushed: &RecordBatch, reference: &RecordBatch) -> Result<bool, (String, String)> {
+    let n = flushed.num_rows();
+    let rt = tokio::runtime::Builder::new_current_thread().enable_all().build().unwrap();
+    let truth = match rt.block_on(ref_truth(&ref_ctx(reference.clone()), clause, n)) {
+        Ok(t) => t,
+        Err(_) => return Ok(false), // DataFusion rejects the clause: outside the family
+    };
+    let sql = format!("SELECT * FROM metrics WHERE {clause}");
+    let filter = match catch_unwind(AssertUnwindSafe(|| QueryFilter::from_sql(&sql))) {
+        Ok(f) => f,
+        Err(p) => return Err(("C18:missing-column:from_sql-panics".into(), format!("`{clause}`: {}", panic_msg(p)))),
+    };
+    let got: Vec<f64> = match subject_apply(&filter, flushed, 0) {
+        Got::Rows(None) => vec![],
+        Got::Rows(Some(b)) => b.column_by_name("value_f64").and_then(|c| c.as_any().downcast_ref::<Float64Array>().map(|a| a.values().to_vec())).unwrap_or_default(),
+        Got::Err(e) => return Err(("C18:missing-column:apply-fails".into(), format!("`{clause}`: {e}"))),
+        Got::Panic(m) => return Err(("C18:missing-column:apply-panics".into(), format!("`{clause}`: {m}"))),
+    };
+    // value_f64 = the row number, so the delivered rows identify themselves
+    let want: Vec<f64> = (0..n).filter(|i| truth[*i]).map(|i| i as f64).collect();
+    if got != want {
+        let kind = if want.iter().all(|w| got.contains(w)) { "extra-rows" } else if got.iter().all(|g| want.contains(g)) { "missing-rows" } else { "missing+extra-rows" };
+        let shape = clause.replace("'eu'", "?").replace("'us'", "?").replace("'a'", "?").replace("'b'", "?").replace("'z1'", "?").replace("'cpu'", "?").replace("1.5", "?");
+        return Err((format!("C18:missing-column:{kind}:{shape}"), format!("`{clause}` over a batch without the column: delivered rows {got:?}, the clause selects {want:?} (the label is NULL for every row of this batch)")));
+    }
+    Ok(true)
+}
+
+fn missing_column_space(rep: &mut Report) {
+    let t0 = std::time::Instant::now();
+    let clauses = missing_column_clauses();
+    let batches = missing_column_batches();
+    let (mut evals, mut skipped, mut selected_some) = (0u64, 0u64, 0u64);
+    let mut viol: BTreeMap<String, (String, String, usize, u64)> = BTreeMap::new();
+    for c in &clauses {
+        for (bi, (f, r)) in batches.iter().enumerate() {
+            match missing_column_one(c, f, r) {
+                Ok(true) => {
+                    evals += 1;
+                }
+                Ok(false) => skipped += 1,
+                Err((sig, msg)) => {
+                    evals += 1;
+                    let e = viol.entry(sig).or_insert((msg, c.clone(), bi, 0));
+                    e.3 += 1;
+                }
+            }
+        }
+        if c.contains("OR host") || c.contains("OR value") || c.contains("OR metric") || c.contains("host = 'a' OR") {
+            selected_some += 1;
+        }
+    }
+    println!("C18 E missing column: {} clauses x {} batches = {} evaluations ({} rejected by DataFusion), violation-sigs={}; {:.1}s", clauses.len(), batches.len(), evals, skipped, viol.len(), t0.elapsed().as_secs_f64());
+    rep.add_u64("evaluations", evals);
+    rep.set("missing_column", json!({"clauses": clauses.len(), "batches": batches.len(), "evaluations": evals, "rejected_by_datafusion": skipped,
+        "rule": "every comparison {=,!=,<,<=,>,>=} x both operand orders on a label the flushed batch does not carry, alone and combined (AND / OR, both orders, one nesting) with comparisons on columns it does carry, x batches of 1 / 4 rows x 2 timestamp types; reference = DataFusion over the same rows with the missing labels as all-NULL columns"}));
+    if evals == 0 || selected_some == 0 {
+        rep.machinery("vacuity guard: the missing-column space evaluated nothing");
+    }
+    for (sig, (msg, clause, bi, n)) in viol {
+        rep.violation_n(&sig, &msg, json!({"kind": "missing-column", "clause": clause, "batch": bi}), n);
+    }
 }
